@@ -8,6 +8,7 @@
 Nothing is ever committed to /repo; the patch is undone with `git -C /repo checkout -- .` even when a check crashes."""
 import json
 import os
+import re
 import shutil
 import subprocess
 import sys
@@ -79,7 +80,8 @@ def confirm(src):
 def run(sid, checks=None, tier='quick'):
     d = SEEDED + '/' + sid
     meta = json.load(open(d + '/meta.json'))
-    checks = checks or [meta['property']] + meta.get('also', [])
+    prop = re.match(r'C\d\d', meta['property']).group(0)
+    checks = checks or [prop] + meta.get('also', [])
     rc, out = sh(['git', '-C', '/repo', 'status', '--porcelain'])
     assert out.strip() == '', '/repo is not clean: ' + out
     rc, out = sh(['git', '-C', '/repo', 'apply', d + '/patch.diff'])
